@@ -60,7 +60,7 @@ class TraceVerdict:
         self.transitions = 0
 
 
-def validate(programs_events, module, nproc=16, tag=None, timeout=3600, extra_files=None, env=None):
+def validate(programs_events, module, nproc=16, tag=None, timeout=3600, extra_files=None, env=None, cfg_extra=''):
     """programs_events: list of event lists (one per program, starting with Reset)."""
     v = TraceVerdict()
     total = sum(len(p) for p in programs_events)
@@ -81,7 +81,7 @@ def validate(programs_events, module, nproc=16, tag=None, timeout=3600, extra_fi
         path = os.path.join(wd, 'trace-%d.json' % k)
         with open(path, 'w') as f:
             json.dump(chunks[k], f)
-        cfg = 'SPECIFICATION TraceSpec\nPOSTCONDITION Post\nCHECK_DEADLOCK FALSE\n'
+        cfg = 'SPECIFICATION TraceSpec\nPOSTCONDITION Post\nCHECK_DEADLOCK FALSE\n' + cfg_extra
         results[k] = tlc.run(module, cfg_text=cfg, workdir=wd, workers=1, timeout=timeout,
                              env=dict(env or {}, TRACE_FILE=path), heap='3g', tag='%s-%d' % (tag or module, k),
                              files=extra_files)
